@@ -142,7 +142,8 @@ def select(prop, tier, only):
             if only and only not in h["name"]:
                 continue
             t = h.get("tier", "quick")
-            if (t == "off" and not only) or (t != "off" and tier == "quick" and t != "quick"):
+            # tier=off harnesses are a record of what did not fit; they run only when named exactly
+            if (t == "off" and only != h["name"]) or (t != "off" and tier == "quick" and t != "quick"):
                 continue
             hs.append(h)
     return hs
